@@ -1336,6 +1336,14 @@ impl FixtureDatabase {
         function_line: usize,
     ) -> Option<ParamInsertionInfo> {
         let content = self.get_file_content(file_path)?;
+
+        // Place the parameter from the parsed signature when the document parses: a textual
+        // search for "):" is misled by return annotations, comments, multi-line signatures,
+        // trailing commas and parameters with defaults.
+        if let Some(info) = self.param_insertion_info_from_ast(file_path, &content, function_line) {
+            return Some(info);
+        }
+
         let lines: Vec<&str> = content.lines().collect();
 
         for i in (function_line.saturating_sub(1))..lines.len().min(function_line + 10) {
@@ -1377,11 +1385,112 @@ impl FixtureDatabase {
                     line: i + 1,
                     char_pos: paren_pos,
                     needs_comma: has_params,
+                    needs_trailing_comma: false,
                 });
             }
         }
 
         None
+    }
+
+    /// Find the arguments and start offset of the function whose `def` is on `function_line`
+    /// (module level or inside classes).
+    fn find_function_at_line<'a>(
+        &self,
+        stmts: &'a [Stmt],
+        function_line: usize,
+        line_index: &[usize],
+    ) -> Option<(&'a rustpython_parser::ast::Arguments, usize)> {
+        for stmt in stmts {
+            match stmt {
+                Stmt::FunctionDef(f)
+                    if self.get_line_from_offset(f.range.start().to_usize(), line_index)
+                        == function_line =>
+                {
+                    return Some((&f.args, f.range.start().to_usize()));
+                }
+                Stmt::AsyncFunctionDef(f)
+                    if self.get_line_from_offset(f.range.start().to_usize(), line_index)
+                        == function_line =>
+                {
+                    return Some((&f.args, f.range.start().to_usize()));
+                }
+                Stmt::ClassDef(c) => {
+                    if let Some(found) =
+                        self.find_function_at_line(&c.body, function_line, line_index)
+                    {
+                        return Some(found);
+                    }
+                }
+                _ => {}
+            }
+        }
+        None
+    }
+
+    /// Where a new fixture parameter goes, from the parsed signature: after the last
+    /// positional parameter without a default; else in front of the first parameter
+    /// (all have defaults or are `*args` / keyword-only / `**kwargs`); else inside the
+    /// empty parentheses.
+    fn param_insertion_info_from_ast(
+        &self,
+        file_path: &Path,
+        content: &str,
+        function_line: usize,
+    ) -> Option<ParamInsertionInfo> {
+        let parsed = self.get_parsed_ast(file_path, content)?;
+        let rustpython_parser::ast::Mod::Module(module) = parsed.as_ref() else {
+            return None;
+        };
+        let line_index = self.get_line_index(file_path, content);
+        let (args, def_start) =
+            self.find_function_at_line(&module.body, function_line, &line_index)?;
+        let at =
+            |offset: usize, needs_comma: bool, needs_trailing_comma: bool| ParamInsertionInfo {
+                line: self.get_line_from_offset(offset, &line_index),
+                char_pos: self.get_char_position_from_offset(offset, &line_index),
+                needs_comma,
+                needs_trailing_comma,
+            };
+
+        // After the last positional parameter that has no default
+        if let Some(last) = args
+            .posonlyargs
+            .iter()
+            .chain(args.args.iter())
+            .filter(|a| a.default.is_none())
+            .next_back()
+        {
+            return Some(at(last.def.range.end().to_usize(), true, false));
+        }
+
+        // In front of the first parameter of any kind
+        let bytes = content.as_bytes();
+        let mut starts: Vec<usize> = args
+            .posonlyargs
+            .iter()
+            .chain(args.args.iter())
+            .chain(args.kwonlyargs.iter())
+            .map(|a| a.def.range.start().to_usize())
+            .collect();
+        for star in args.vararg.iter().chain(args.kwarg.iter()) {
+            // the node starts at the name: step back over the `*` / `**`
+            let mut o = star.range.start().to_usize();
+            while o > 0 && (bytes[o - 1] == b'*' || bytes[o - 1] == b' ') {
+                o -= 1;
+            }
+            while o < bytes.len() && bytes[o] == b' ' {
+                o += 1;
+            }
+            starts.push(o);
+        }
+        if let Some(first) = starts.into_iter().min() {
+            return Some(at(first, false, true));
+        }
+
+        // No parameters: right after the opening parenthesis of the signature
+        let open = def_start + content.get(def_start..)?.find('(')?;
+        Some(at(open + 1, false, false))
     }
 
     /// Check if a position is inside a test or fixture function (parameter or body)
